@@ -5,7 +5,7 @@
 From Coq Require Import List NArith Bool Ascii.
 From Coq Require Export String.
 From AdltV Require Import Base.Obs.
-From AdltV Require Export Filter.Match Filter.Frontends Filter.FrontendsXml.
+From AdltV Require Export Filter.Match Filter.Frontends Filter.FrontendsXml Filter.FrontendsSpec.
 Import ListNotations.
 Open Scope N_scope.
 
@@ -27,7 +27,8 @@ Inductive fe_in :=
 | InJson (top : option (list (string * jvalue)))     (* None: the text is not a JSON object *)
 | InDlf (evs : list xev)                              (* the events quick-xml produces for the file *)
 | InConv (buf : list N)
-| InEac (s : text).
+| InEac (s : text)
+| InDirect (a : afilter).                             (* Filter::new(kind) + assignment of the public fields *)
 
 (* message as written by the harness: ecu bytes, extended header (type byte, apid, ctid), payload text, lifecycle *)
 Definition cmsg := (list N * option (N * list N * list N) * option (list N) * N)%type.
@@ -141,6 +142,7 @@ Section Run.
                     (from_json_kv (valid_of vt) (JObject (map (fun p => (jkey_of_name (fst p), snd p)) kv))))
     | InDlf evs => o_loaded (filters_from_dlf_events (valid_of vt) evs)
     | InConv buf => o_loaded (Some (from_convert_format buf))
+    | InDirect a => o_loaded (Some [filter_of a])
     | InEac s =>
         (* driven through `adlt convert --eac=`: only the selection is visible *)
         match eac_from_str (valid_of vt) s with
